@@ -567,7 +567,9 @@ pub fn run_case(case: &Arc<Case>, spec: &SchedSpec) -> RunOutput {
     // (deep re-entrant chains recurse through parser, evaluator and harness a hundred times)
     cfg.stack_size = if case.tag == "deep-chain" { 1 << 24 } else { 1 << 19 };
     cfg.failure_persistence = shuttle::FailurePersistence::None;
-    cfg.max_steps = shuttle::MaxSteps::FailAfter(MAX_STEPS);
+    // bounded liveness: the budget grows with the size of the case (a 2000-operation history legitimately
+    // takes a few hundred scheduling steps per operation)
+    cfg.max_steps = shuttle::MaxSteps::FailAfter(MAX_STEPS + 5_000 * case.n_ops());
     cfg.silence_warnings = true;
     let runner = shuttle::Runner::new(SimScheduler::new(spec.clone(), rec.clone()), cfg);
     let env2 = env.clone();
